@@ -40,6 +40,18 @@ def Byte():
     return Int(0, 255)
 
 
+class BV(Shape):
+    """machine integer: unsigned bit-vector of the given width with value <= hi"""
+    def __init__(self, width, hi=None):
+        self.width, self.hi = width, hi
+
+    def sym(self, ex, name):
+        t = z3.BitVec(ex.fresh_name(name), self.width)
+        if self.hi is not None:
+            ex.assume(z3.ULE(t, self.hi))
+        return SInt(t)
+
+
 class Bool(Shape):
     def sym(self, ex, name):
         return ex.fresh_bool(name)
@@ -105,6 +117,22 @@ class Any(Shape):
 
     def sym_at(self, ex, name, idx):
         return Missing('havocked value %s' % name)
+
+
+class BVBytes(Shape):
+    """byte string of n octets held as bit-vector terms (machine-integer mode)"""
+    def __init__(self, n, width=32, mutable=True):
+        self.n, self.width, self.mutable = n, width, mutable
+
+    def sym(self, ex, name):
+        ts = []
+        for i in range(self.n):
+            t = z3.BitVec(ex.fresh_name('%s[%d]' % (name, i)), self.width)
+            ex.assume(z3.ULE(t, 255))
+            ts.append(t)
+        if not ts:
+            return SBytes.concrete(b'', self.mutable)
+        return N.bytes_from_terms(ts, self.mutable)
 
 
 class Opt(Shape):
@@ -206,6 +234,16 @@ def _lock_sym_at(self, ex, name, idx):
 
 
 Lock.sym_at = _lock_sym_at
+
+
+class Log(Shape):
+    """a logging.Logger (calls are no-ops)"""
+    def sym(self, ex, name):
+        from .world import LOGGER
+        return LOGGER
+
+    def sym_at(self, ex, name, idx):
+        return self.sym(ex, name)
 
 
 class Cond(Shape):
@@ -390,6 +428,8 @@ def concretize(ex, v, m, memo=None, depth=0):
     if v is None or isinstance(v, (bool, int, float, str)):
         return v
     if isinstance(v, SInt):
+        if isinstance(v.t, z3.BitVecRef):
+            return m.eval(v.t, model_completion=True).as_long()
         return ev(v.t)
     if isinstance(v, SBool):
         return ev(v.t)
@@ -404,6 +444,8 @@ def concretize(ex, v, m, memo=None, depth=0):
             bs = []
             for i in range(n):
                 t = v.at(i)
+                if isinstance(t, z3.BitVecRef):
+                    t = m.eval(t, model_completion=True).as_long()
                 bs.append((t if isinstance(t, int) else ev(t)) % 256)
         finally:
             ex.collect_facts = saved
@@ -448,6 +490,8 @@ def concretize(ex, v, m, memo=None, depth=0):
         return {'__cond__': concretize(ex, v.lock, m, memo)}
     if isinstance(v, ClassVal):
         return {'__class__': v.qualname}
+    if v.__class__.__name__ == 'Logger':
+        return {'__logger__': 'verif'}
     if isinstance(v, FuncVal):
         if isinstance(v.node, ast.Lambda):
             return {'__lambda__': ast.unparse(v.node)}
@@ -722,7 +766,10 @@ def annotated_loop(ex, node, spec, it=None):
     exempt_vals = set()
     exempt_fields = set()
     for lv, shp in spec.havoc.items():
-        v = shp.sym(ex, 'loop!' + lv)
+        if isinstance(shp, str):
+            v = eval_clause(ex, shp, fr.locals, mod, fr.env)
+        else:
+            v = shp.sym(ex, 'loop!' + lv)
         exempt_vals.add(id(v))
         tnode = parse_clause(lv)
         if isinstance(tnode, ast.Attribute):
